@@ -177,6 +177,10 @@ package yubiattest
 //@   (out.UnknownExtKeyUsage == nil || fresh(arr(out.UnknownExtKeyUsage))) && (out.PolicyIdentifiers == nil || fresh(arr(out.PolicyIdentifiers))) &&
 //@   (out.OCSPServer == nil || fresh(arr(out.OCSPServer))) && (out.IssuingCertificateURL == nil || fresh(arr(out.IssuingCertificateURL))) &&
 //@   (out.UnhandledCriticalExtensions == nil || fresh(arr(out.UnhandledCriticalExtensions)))
+//@ # the recorded extensions are, position by position, the decoded ones
+//@ ghost func extsCopied(out *x509.Certificate, in *certificate) bool =
+//@   forall(j, 0 <= j && j < len(out.Extensions), out.Extensions[j].Id == in.TBSCertificate.Extensions[j].Id &&
+//@     out.Extensions[j].Critical == in.TBSCertificate.Extensions[j].Critical && out.Extensions[j].Value == in.TBSCertificate.Extensions[j].Value)
 //@ # what the conversion copies, field by field (this is where "agrees with the standard library" is pinned: crypto/x509 takes the same
 //@ # fields from the same places of the decoded structure; RFC 5280, 4.1)
 //@ func parseCertificate(in)
@@ -199,24 +203,31 @@ package yubiattest
 //@   ensures [key-failure-surfaces] (calls(parsePublicKey) == k0 + 1 && ret(parsePublicKey, k0, 1) != nil) ==> (result0 == nil && result1 == ret(parsePublicKey, k0, 1))
 //@   ensures [version-serial-validity] result1 == nil ==> (result0.Version == in.TBSCertificate.Version + 1 && result0.SerialNumber == in.TBSCertificate.SerialNumber &&
 //@     result0.NotBefore == in.TBSCertificate.Validity.NotBefore && result0.NotAfter == in.TBSCertificate.Validity.NotAfter)
-//@   # (that the j-th recorded extension is the j-th decoded one is not decided: the element-wise invariant over the appended list of
-//@   # structs does not discharge within the time limits; the count is)
 //@   ensures [one-recorded-extension-per-decoded-extension] result1 == nil ==> len(result0.Extensions) == len(in.TBSCertificate.Extensions)
+//@   ensures [extension-list-in-order] result1 == nil ==> extsCopied(result0, in)
 //@   loop 1:
 //@     invariant out != nil && fresh(out) && ownsLists(out)
 //@     invariant len(out.Extensions) == rangeindex + 1
+//@     invariant !fresh(arr(in.TBSCertificate.Extensions)) && off(out.Extensions) == 0
+//@     invariant [extension-list-in-order] extsCopied(out, in)
 //@   loop 2:
-//@     invariant out != nil && fresh(out) && ownsLists(out)
+//@     invariant out != nil && fresh(out) && ownsLists(out) && !fresh(arr(in.TBSCertificate.Extensions)) && off(out.Extensions) == 0 && len(out.Extensions) <= len(in.TBSCertificate.Extensions)
+//@     invariant [extension-list-in-order] extsCopied(out, in)
 //@   loop 3:
-//@     invariant out != nil && fresh(out) && ownsLists(out)
+//@     invariant out != nil && fresh(out) && ownsLists(out) && !fresh(arr(in.TBSCertificate.Extensions)) && off(out.Extensions) == 0 && len(out.Extensions) <= len(in.TBSCertificate.Extensions)
+//@     invariant [extension-list-in-order] extsCopied(out, in)
 //@   loop 4:
-//@     invariant out != nil && fresh(out) && ownsLists(out)
+//@     invariant out != nil && fresh(out) && ownsLists(out) && !fresh(arr(in.TBSCertificate.Extensions)) && off(out.Extensions) == 0 && len(out.Extensions) <= len(in.TBSCertificate.Extensions)
+//@     invariant [extension-list-in-order] extsCopied(out, in)
 //@   loop 5:
-//@     invariant out != nil && fresh(out) && ownsLists(out)
+//@     invariant out != nil && fresh(out) && ownsLists(out) && !fresh(arr(in.TBSCertificate.Extensions)) && off(out.Extensions) == 0 && len(out.Extensions) <= len(in.TBSCertificate.Extensions)
+//@     invariant [extension-list-in-order] extsCopied(out, in)
 //@   loop 6:
-//@     invariant out != nil && fresh(out) && ownsLists(out) && len(out.PolicyIdentifiers) == len(policies)
+//@     invariant out != nil && fresh(out) && ownsLists(out) && !fresh(arr(in.TBSCertificate.Extensions)) && off(out.Extensions) == 0 && len(out.Extensions) <= len(in.TBSCertificate.Extensions) && len(out.PolicyIdentifiers) == len(policies)
+//@     invariant [extension-list-in-order] extsCopied(out, in)
 //@   loop 7:
-//@     invariant out != nil && fresh(out) && ownsLists(out)
+//@     invariant out != nil && fresh(out) && ownsLists(out) && !fresh(arr(in.TBSCertificate.Extensions)) && off(out.Extensions) == 0 && len(out.Extensions) <= len(in.TBSCertificate.Extensions)
+//@     invariant [extension-list-in-order] extsCopied(out, in)
 
 //@ ghost func isOID6(oid asn1.ObjectIdentifier, a int, b int, c int, d int, e int, f int) bool =
 //@   len(oid) == 6 && oid[0] == a && oid[1] == b && oid[2] == c && oid[3] == d && oid[4] == e && oid[5] == f
